@@ -177,6 +177,8 @@ def get_item(value, index):
 
 
 def bound_check(index, shape):
+    if len(index) > len(shape):
+        raise IndexError(f"too many indices {index} for shape {shape}")
     for ii, ss in zip(index, shape):
         if ii < 0 or ii >= ss:
             raise IndexError(f"index {index} outside shape {shape}")
